@@ -207,10 +207,10 @@ func TestC19(t *testing.T) {
 	statusSeen := map[int]bool{}
 	payloads := []string{`{}`, `{"a":1}`, `"é世界 😀"`, `[1,2.5,"x",null]`, `1e400`, `"<script>&"`, ` { "ws" : [ 1 , 2 ] } `, `"` + strings.Repeat("z", 5000) + `"`}
 	for i := 0; i < n; i++ {
-		if !cfg.Mine(i) {
+		seed := cfg.CaseSeed("C19", i)
+		if !cfg.Want(i, seed) {
 			continue
 		}
-		seed := cfg.CaseSeed("C19", i)
 		rig.SetWatchdogContext(fmt.Sprintf("C19 case %d", i))
 		rig.RunCase(t, seed, rig.Opts{}, func(e *rig.Env) {
 			r := e.Rand
